@@ -88,7 +88,7 @@ func isWaitStmt(p *Pkg, s ast.Stmt) bool {
 }
 
 func genParFacts() {
-	p := loadPkg(filepath.Join(repoRoot(), "lib", "query"))
+	p := loadPkg(filepath.Join(repoRoot(), "lib", "query"), queryPkg)
 	a := &analysis{p: p, initLits: map[types.Object][]*ast.FuncLit{}, initOf: map[types.Object]ast.Expr{}, called: map[string]bool{},
 		decls: map[types.Object]*ast.FuncDecl{}}
 
@@ -170,6 +170,7 @@ func genParFacts() {
 	// named worker: a declared function/method started with `go f(args)`; parameters bound to plain
 	// variables of the parent are aliases of those variables, the others are shared by all workers.
 	namedWorker := func(r *region, parentFd *ast.FuncDecl, callee *ast.FuncDecl, call *ast.CallExpr, loopVar types.Object, multi bool) {
+		a.called[funcLabel(callee)] = true
 		b := &wbody{label: funcLabel(callee), multi: multi}
 		r.bodies = append(r.bodies, b)
 		v := a.newVisitor(r, b, funcLabel(callee))
@@ -460,18 +461,37 @@ func genParFacts() {
 		v := a.newVisitor(tmp, b, lbl)
 		v.named = true
 		v.allowGo = true
+		v.methodPass = true
 		v.top = fd
 		v.shared[p.Info.Defs[rn]] = true
 		v.stmts(fd.Body.List)
+		syncField := map[string]bool{}
+		for _, ac := range tmp.acc {
+			if ac.kind != kVar {
+				syncField[ac.path] = true
+			}
+		}
+		dup := map[string]bool{}
 		for _, ac := range tmp.acc {
 			if !strings.HasPrefix(ac.path, rn.Name+".") {
 				continue // parameters and the receiver pointer itself
 			}
-			ac.path = typ + ac.path[len(rn.Name):]
-			mfacts = append(mfacts, mfact{typ, fd.Name.Name, ac.path, ac.rw, ac.guard, conc, p.line(ac.pos)})
 			if conc {
 				mr.acc = append(mr.acc, ac)
 			}
+			guard := ac.guard
+			if ac.kind != kVar {
+				guard = "(operation of a synchronisation object: " + ac.how + ")"
+			} else if syncField[ac.path] {
+				continue
+			}
+			mf := mfact{typ, fd.Name.Name, ac.path[len(rn.Name)+1:], ac.rw, guard, conc, p.line(ac.pos)}
+			k := fmt.Sprintf("%s|%s|%c|%s", mf.method, mf.field, mf.rw, mf.underMutex)
+			if dup[k] {
+				continue
+			}
+			dup[k] = true
+			mfacts = append(mfacts, mf)
 		}
 		if conc {
 			mr.bodies = append(mr.bodies, b)
@@ -518,18 +538,20 @@ func genParFacts() {
 		fmt.Fprintf(&o, "  (%d, %s, %s)%s\n", r.id, leanStr(p.base(r.pos)), leanStr(r.desc), sep)
 	}
 	o.WriteString("]\n\n")
-	const chunk = 60
-	nchunks := 0
-	for i := 0; i < len(all); i += chunk {
-		end := i + chunk
-		if end > len(all) {
-			end = len(all)
+	var regionDefs []string
+	for _, r := range a.regions {
+		var mine []*access
+		for _, ac := range all {
+			if regionOf[ac] == r {
+				mine = append(mine, ac)
+			}
 		}
-		fmt.Fprintf(&o, "def parFacts%d : List ParFact := [\n", nchunks)
-		for j := i; j < end; j++ {
-			ac := all[j]
+		name := fmt.Sprintf("parFactsR%d", r.id)
+		regionDefs = append(regionDefs, name)
+		fmt.Fprintf(&o, "/-- region %d: %s (%s) -/\ndef %s : List ParFact := [\n", r.id, r.desc, p.base(r.pos), name)
+		for j, ac := range mine {
 			sep := ","
-			if j == end-1 {
+			if j == len(mine)-1 {
 				sep = ""
 			}
 			how := ac.how
@@ -543,23 +565,13 @@ func genParFacts() {
 			if ac.rw == 'W' {
 				rw = ".w"
 			}
-			fmt.Fprintf(&o, "  ⟨%s, %d, %s, %d, %s, %v, %s, .%s, %s⟩%s\n", leanStr(p.base(ac.pos)), p.line(ac.pos), leanStr(ac.fn),
-				regionOf[ac].id, leanStr(ac.path), ac.elem, rw, ac.cls, leanStr(how), sep)
+			fmt.Fprintf(&o, "  ⟨%s, %d, %s, %d, %s, %v, %s, .%s, %s, %v⟩%s\n", leanStr(p.base(ac.pos)), p.line(ac.pos), leanStr(ac.fn),
+				r.id, leanStr(ac.path), ac.elem, rw, ac.cls, leanStr(how), ac.kind != kVar, sep)
 		}
 		o.WriteString("]\n\n")
-		nchunks++
 	}
-	o.WriteString("def parFacts : List ParFact :=\n  ")
-	if nchunks == 0 {
-		o.WriteString("[]")
-	}
-	for i := 0; i < nchunks; i++ {
-		if i > 0 {
-			o.WriteString(" ++ ")
-		}
-		fmt.Fprintf(&o, "parFacts%d", i)
-	}
-	o.WriteString("\n\n")
+	o.WriteString("def parFactsByRegion : List (List ParFact) := [" + strings.Join(regionDefs, ", ") + "]\n\n")
+	o.WriteString("def parFacts : List ParFact := parFactsByRegion.flatten\n\n")
 	sort.SliceStable(mfacts, func(i, j int) bool { return mfacts[i].line < mfacts[j].line })
 	o.WriteString("/-- (type, method, field, access, mutex held (\"\" = none), callable while workers run) -/\n")
 	o.WriteString("def managerMethodFacts : List MethodFact := [\n")
